@@ -1,7 +1,8 @@
 \* exhaustive: 3 L1 blocks, 3 events, 1 reorg, 1 failure, 1 failed write of the head record, 1 restart, chunk size in {1,2,10}
 \* (repaired design: CatchUpWriteErrorFatal = TRUE; the code before the repair is L1_x_catchupwrite.cfg)
-\* measured: 3 575 174 distinct / 13 046 991 generated states, depth 34 (55-60 s on 4 loaded workers;
-\*           without write failures: 3 259 276 / 12 025 282, 46 s on the same machine)
+\* (the accessor dimension is off here, MaxReads = 0: see L1_acc.cfg; four error kinds)
+\* measured: 3 575 174 distinct / 15 109 827 generated states, depth 34 (with one error kind: 13 046 991 generated;
+\*           55-60 s on 4 workers of an idle machine before the error kinds, same CPU time within 5 % with them)
 CONSTANTS
   MaxBlocks = 3
   MaxEvents = 3
@@ -14,10 +15,14 @@ CONSTANTS
   CatchUpWriteErrorFatal = TRUE
   SwallowWriteError = FALSE
   AnnounceBeforeWrite = FALSE
+  MaxReads = 0
+  CachedAccessor = FALSE
+  ErrKinds = {"transport", "timeout", "notfound", "cancel"}
+  NotFoundMeansLatest = FALSE
   FinalityAfterNotices = TRUE
 INIT Init
 NEXT Next
 VIEW view
 INVARIANTS TypeOK StoredFinalisedCanonical BufferSane ChainSane AnnouncedIsRecorded
-PROPERTIES SetHeadExact RunningImpliesRecorded StopOnlyOnWriteFailure OnlySetHeadWrites Monotone RestartIsNoOp
+PROPERTIES FailedFinIsRetried HeadWithinReported SetHeadExact RunningImpliesRecorded StopOnlyOnWriteFailure OnlySetHeadWrites Monotone RestartIsNoOp
 CHECK_DEADLOCK FALSE
